@@ -5,6 +5,7 @@ import random
 import re
 
 import apicheck as A
+import casesib as CS
 import htmlobs as HO
 import imgconv as IC
 from gen_docx import el, REL
@@ -52,10 +53,12 @@ def picture_node(rng, rid, k, T):
     return node, (descr if (descr or "").strip() else title), False
 
 
-def image_case(seed, big=False, texts=None, odd_types=False):
+def image_case(seed, big=False, texts=None, odd_types=False, case_siblings=0.0):
     """texts: None, or a function without arguments that supplies the description / title strings (hostile strings for C02);
     odd_types: declare some media types in other spellings (letter case, white space; the CLI check, which turns the subtype
-    into a file name, keeps the plain ones)"""
+    into a file name, keeps the plain ones); case_siblings (no draw without it): probability that a further picture is a part whose NAME
+    differs only in letter case from an earlier picture's (image1.png / image1.PNG / Image1.png / Media/image1.png) - another entry of
+    the archive with a relationship, bytes and a declared type of its own - and that unreferenced siblings of looked-up parts exist"""
     rng = random.Random(seed)
     T = (lambda s: s) if texts is None else (lambda s: texts())
     n = rng.randint(1, 4)
@@ -76,8 +79,18 @@ def image_case(seed, big=False, texts=None, odd_types=False):
         ext = rng.choice(["png", "PNG", "jpg", "JPeG", "gif", "bmp", "tif", "emf", "svg", "xyz"])
         stem = rng.choice(["image%d", "image%d", "image%d", "im%%20age%d", "%%41%d", "pic+%d"]) % (k + 1)   # part names are not URI-decoded
         name = "word/media/%s.%s" % (stem, ext)
+        sib_of = None
+        if case_siblings and imgs and rng.random() < case_siblings:
+            sib_of = rng.choice(imgs)
+            name2 = CS.sibling_name(rng, sib_of["name"], {p["name"] for p in parts})
+            if name2 is None:
+                sib_of = None
+            else:
+                name, ext = name2, name2.rpartition(".")[2]
         size = rng.choice([0, 1, 2, 3, 4, 5, 31, 256] + ([70000, 200000] if big else []))
         data = bytes(range(256)) if size == 256 else bytes(rng.randrange(256) for _ in range(size))
+        if sib_of is not None and any(im["bytes"] == data for im in imgs if im["name"].lower() == name.lower()):
+            data = data + bytes([len(imgs), 0x5B])       # siblings never hold the same bytes: which entry was read is visible
         how = rng.choice(["override", "default", "default-lower", "none", "both"])
         declared = rng.choice(["image/png", "image/jpeg", "image/pjpeg", "image/x-emf", "image/svg+xml", "image/x-ms-bmp"])
         if rng.random() < 0.3:
@@ -99,6 +112,8 @@ def image_case(seed, big=False, texts=None, odd_types=False):
             expected_ct = "image/" + BUILTIN[ext.lower()]
         rid = "rIdI%d" % k
         target = rng.choice(["media/%s.%s" % (stem, ext), "/" + name])
+        if sib_of is not None:
+            target = rng.choice([name[len("word/"):], "/" + name]) if name.startswith("word/") else "/" + name
         rels.append([rid, REL + "image", target])
         kind = rng.choice(["inline", "anchor", "vml"])
         descr, title = rng.choice([None, "", "  ", T("descr %d" % k)]), rng.choice([None, T("title %d" % k)])
@@ -130,13 +145,19 @@ def image_case(seed, big=False, texts=None, odd_types=False):
     if rng.random() < 0.9 or overrides or defaults:
         parts.append({"name": "[Content_Types].xml", "xml": el("content-types:Types", [], [el("content-types:Default", [("Extension", e), ("ContentType", c)]) for e, c in defaults] +
                       [el("content-types:Override", [("PartName", p), ("ContentType", c)]) for p, c in overrides])})
+    sib_features = []
+    if case_siblings:
+        if any(a["name"] != b["name"] and a["name"].lower() == b["name"].lower() for a in imgs for b in imgs):
+            sib_features.append("case-sibling-pictures")
+        if rng.random() < case_siblings:
+            sib_features += CS.add_decoys(rng, parts)
     opts = {}
     conv = rng.choice(["default", "default", "fixed-open", "fixed-noopen"])
     if conv != "default":
         opts["imageConv"] = {"kind": "fixed", "attrs": [["src", "custom.png"]] + ([["alt", "from converter"]] if rng.random() < 0.5 else []) + ([["class", "c<"]] if rng.random() < 0.3 else []),
                              "open": conv == "fixed-open"}
         IC.vary_converter(rng, opts["imageConv"])
-    return {"parts": parts, "options": opts, "key": "c17-%d" % seed, "imgs": imgs, "noshrink": True, "features": [conv]}
+    return {"parts": parts, "options": opts, "key": "c17-%d" % seed, "imgs": imgs, "noshrink": True, "features": [conv] + sib_features}
 
 
 def intact(case, r):
@@ -192,18 +213,25 @@ def project(r, case):
 
 def run(out, tier, seed, model_ok):
     n = common.deepen(1200 if tier == "quick" else 12000)
-    cs = [image_case(seed * 1000003 + i, big=(tier == "thorough" or i % 100 == 0), odd_types=True) for i in range(n)]
+    cs = [image_case(seed * 1000003 + i, big=(tier == "thorough" or i % 100 == 0), odd_types=True, case_siblings=0.3 if i % 2 else 0.0) for i in range(n)]
     run_ = A.ApiRun(out, "C17", model_ok, project, observers=[intact, IC.prescribed], name="images")
     run_.run(cs, nontrivial=lambda c, r: len(c["imgs"]) >= 1)
     # one converter object (possibly remembering its results) used for several consecutive conversions
     IC.sequences(out, "C17", cs, random.Random(seed * 7919 + 17), [intact, IC.prescribed], common.deepen(120 if tier == "quick" else 1500))
     cs2 = A.gen_cases(seed + 3, n // 4, dict(p_image=0.5, p_altcontent=0.15, p_table=0.15, style_map=0.2), tag="c17g-")
+    srng = random.Random(seed * 7919 + 1710)
+    for c in cs2:
+        # entries whose names differ only in case from the parts the library looks up (and from the media), with other content
+        if srng.random() < 0.4:
+            c["features"] = c["features"] + CS.add_decoys(srng, c["parts"])
     run2 = A.ApiRun(out, "C17", model_ok, project, name="general")
     run2.run(cs2, nontrivial=lambda c, r: any(f.startswith("image") for f in c["features"]))
     out.rule = ("documents with 1-4 images (inline, anchored, VML) whose bytes range over empty / tiny / all 256 byte values / >64 KiB, targets relative and absolute, "
                 "extension letter case varied, content type given by override / default (exact or lower-case) / neither, alt from descr / blank descr / title, default and "
                 "custom converters (opening or not; returning a new dict, one constant dict, or a remembered dict per picture; numbering; one converter object over consecutive conversions), "
-                "declared types in odd spellings (letter case, surrounding white space, empty), a repeated picture described differently; observation: one img per image in document order, data URI decodes (strict base64) to exactly the part's bytes under "
+                "declared types in odd spellings (letter case, surrounding white space, empty), a repeated picture described differently; sibling pictures whose part names differ ONLY in letter case "
+                "(extension, base name, directory), each with its own relationship, bytes and declared type, and unreferenced case-siblings with other content of every looked-up part "
+                "(document, styles, numbering, notes, relationships, content types, media); observation: one img per image in document order, data URI decodes (strict base64) to exactly the part's bytes under "
                 "the declared type, alt precedence, converter called once per image in order with that type and those bytes; also compared with the Lean model; "
                 "non-trivial = at least one image")
     out.extra["features"] = run_.stats
